@@ -164,6 +164,7 @@ func checkC10Loop(c C05Case, o *vcore.Obs) error {
 		}
 	}
 	o.NonTrivial(len(writers) >= 2 && exchanged)
+	f.excludedFindings(o)
 	o.ClassIf(c.Native, "native")
 	o.ClassIf(!c.Native, "shadow")
 	o.ClassIf(c.Force > 0 && !forcedPossible, "forced-interval-configured-but-long")
